@@ -109,7 +109,9 @@ fn check_writer(c: &WriterCase, r: &WriterRef, k: usize, f: Fault, persistent: b
     let fired = nfired > 0;
     if let Some((step, p)) = res.panic() {
         let kind = if p == "HANG" { "hang".to_string() } else { p.to_string() };
-        return (Some((format!("{}:{step}:{kind}", c.name), format!("step {step} of {} panicked/hung: {p}; steps={:?}", c.name, res.steps))), class, fired);
+        // a panic is identified by its call site: the zero-row-batch variants of a script share the class
+        let base = ["-empty-only", "-empty-first", "-empty-last"].iter().find_map(|s| c.name.strip_suffix(s)).unwrap_or(c.name);
+        return (Some((format!("{base}:{step}:{kind}"), format!("step {step} of {} panicked/hung: {p}; steps={:?}", c.name, res.steps))), class, fired);
     }
     let got = mask(&bytes, &r.sync);
     let want = mask(&r.bytes, &r.sync);
